@@ -87,7 +87,7 @@ class Check:
         return recs
 
     # ---- replay (G, X) --------------------------------------------------------------------
-    def replay(self, recs, variant, name, label=None, soft=None, soft_trace=None, env=None):
+    def replay(self, recs, variant, name, label=None, soft=None, soft_trace=None, env=None, stateful=None):
         """execute specified records on the implementation, compare every specified output.
         soft = {action: [fields]}: outputs whose derivation is implementation-defined (the specification transcribes it to be
         able to predict bytes, but the property does not promise those bytes).  If ONLY soft fields differ, the observed event is
@@ -118,18 +118,35 @@ class Check:
             self.case_labels[self.label_of(r)] += 1
         if len(self.samples) < 4:
             self.samples.append({"direction": "spec->impl", "variant": variant, "record": self.shorten(recs[len(recs) // 2])})
-        if bad:
+        if bad and stateful:
+            # records form histories that start at a `stateful` (reset) record: a disagreeing call is re-run behind its own history
+            for b in bad[:8]:
+                i = b["idx"]; st = i
+                while st > 0 and recs[st]["e"] != stateful: st -= 1
+                seg = recs[st:i + 1]
+                again, rc2, _ = vlib.harness(self.bins[variant], seg, env=env)
+                if len(again) != len(seg) or vlib.sub_diff(b["spec_out"], again[-1]["out"]):
+                    out_seg = [dict(r) for r in seg]
+                    out_seg[-1] = {"e": b["e"], "in": b["in"], "out": b["spec_out"], "impl_out": b["impl_out"]}
+                    self.violation("%s on build '%s': after a history of %d calls, specification and implementation disagree on %s" % (name, variant, len(seg) - 1, sorted(b["diff"].keys())),
+                                   out_seg, variant)
+        elif bad:
             # must reproduce on immediate re-run
             again, _, _ = vlib.harness(self.bins[variant], [b for b in bad], env=env)
             for b, o in zip(bad, again):
                 if vlib.sub_diff(b["spec_out"], o["out"]):
                     self.violation("%s on build '%s': specification and implementation disagree on %s" % (name, variant, sorted(b["diff"].keys())),
                                    [{"e": b["e"], "in": b["in"], "out": b["spec_out"], "impl_out": b["impl_out"]}], variant)
+            if len(again) != len(bad):
+                # the isolated re-run died (a crash is a violation of its own): report the first record that was not answered
+                b = bad[min(len(again), len(bad) - 1)]
+                self.violation("%s on build '%s': specification and implementation disagree on %s, and the implementation crashed when the disagreeing records were re-run"
+                               % (name, variant, sorted(b["diff"].keys())), [{"e": b["e"], "in": b["in"], "out": b["spec_out"], "impl_out": b["impl_out"]}], variant)
         log("[%s] replay %s on %s: %d records, %d disagreements" % (self.pid, name, variant, len(recs), len(bad)))
         # the pinned configuration once more on a context whose SHA-256 compression function was replaced by a correct one
         # (C20: results are a function of the arguments only); cheap: only the harness runs again
         if variant == "std" and env is None and getattr(self, "auto_custom_sha", True) and len(recs) <= 300000 and not self.violations:
-            self.replay(recs, variant, name + " [replaced SHA-256 compression]", soft=soft, soft_trace=soft_trace, env={"VH_CUSTOM_SHA": "1"})
+            self.replay(recs, variant, name + " [replaced SHA-256 compression]", soft=soft, soft_trace=soft_trace, env={"VH_CUSTOM_SHA": "1"}, stateful=stateful)
         # ... and, for the actions the specification lists as enabled on the static context (spec/api/StaticCtx.tla), once more
         # on a copy of secp256k1_context_static: same arguments, same results, no callback
         if variant == "std" and env is None and not self.violations:
